@@ -35,7 +35,8 @@ LEVEL_TEXT = ("Each generated scenario (configuration, single/multi file, overwr
               "fault points of each scenario.")
 LEVEL_NOTE = ("Trusted: the directory snapshot, the open() wrapper (only paths below the scratch directory, only write modes) and the failing "
               "serializer. Real crashes between write and close are not modelled (no durability claim in the statement). Partial output when the "
-              "failure is an I/O error or a refusal to overwrite a *sub*-file is outside the statement and only the no-overwrite clause is asserted there.")
+              "failure is an I/O error is outside the statement and only the no-overwrite clause is asserted there; a save that is *refused* because a file "
+              "exists (target or sub-file, no fault injected) must leave the directory as it was (title: all-or-nothing on failure).")
 RULE = ("case = save scenario; one evaluation per (scenario, fault point). non-trivial = a fault point other than 'none', or a multi-file save with at "
         "least one sub-file, or a pre-existing file in the target directory. distinct = hash of (scenario, fault point)")
 ASSUMPTIONS = [
